@@ -3,7 +3,7 @@
     n | t | f | i<dec> | d<16 hex> | s<hex> | b<hex> | l<hex> | [ … ] | { s<hex> v … }
   Tokens are separated by single spaces.
 -/
-import IpldModel.Model.DM
+import IpldModel.Model.Base
 namespace Ipld
 
 def hexDigit (n : Nat) : Char :=
@@ -39,7 +39,9 @@ def DM.toTokens : DM → List String
   | .bool true => ["t"]
   | .bool false => ["f"]
   | .int i => ["i" ++ toString i]
-  | .float bits =>
+  | .float bits0 =>
+      -- NaN payloads are never compared: every NaN prints as one canonical pattern
+      let bits : UInt64 := if f64IsNaN bits0.toNat then 0x7ff8000000000001 else bits0
       let h := hexOfBytes ((List.range 8).map fun k => UInt8.ofNat (bits.toNat / 256 ^ (7 - k) % 256))
       ["d" ++ h]
   | .str s => ["s" ++ hexOfBytes s]
